@@ -25,7 +25,16 @@ func Scan(data string, loc SourceLoc, delims []string) (tokens []Token) {
 	// TODO error on unterminated {{ and {%
 	// TODO probably an error when a tag contains a {{ or {%, at least outside of a string
 	p, pe := 0, len(data)
-	for _, m := range tokenMatcher.FindAllStringSubmatchIndex(data, -1) {
+	for p < pe {
+		m := tokenMatcher.FindStringSubmatchIndex(data[p:])
+		if m == nil {
+			break
+		}
+		for i := range m {
+			if m[i] >= 0 {
+				m[i] += p
+			}
+		}
 		ts, te := m[0], m[1]
 		if p < ts {
 			tokens = append(tokens, Token{Type: TextTokenType, SourceLoc: loc, Source: data[p:ts]})
@@ -74,11 +83,27 @@ func Scan(data string, loc SourceLoc, delims []string) (tokens []Token) {
 		}
 		loc.LineNo += strings.Count(source, "\n")
 		p = te
+		// The body of a raw or comment block runs to the block's own end tag, whatever tag-like
+		// text it contains: it is not scanned for tokens (an opening {{ or {% that is not closed
+		// inside the body would otherwise pair with a delimiter beyond the end tag).
+		if name := data[max(m[4], 0):max(m[5], 0)]; m[4] >= 0 && (name == "raw" || name == "comment") {
+			if end := blockEndMatcher(delims, name).FindStringIndex(data[te:]); end != nil && end[0] > 0 {
+				body := data[te : te+end[0]]
+				tokens = append(tokens, Token{Type: TextTokenType, SourceLoc: loc, Source: body})
+				loc.LineNo += strings.Count(body, "\n")
+				p = te + end[0]
+			}
+		}
 	}
 	if p < pe {
 		tokens = append(tokens, Token{Type: TextTokenType, SourceLoc: loc, Source: data[p:]})
 	}
 	return tokens
+}
+
+// blockEndMatcher matches the end tag of the named block.
+func blockEndMatcher(delims []string, name string) *regexp.Regexp {
+	return regexp.MustCompile(regexp.QuoteMeta(delims[2]) + `-?\s*end` + name + `\s*-?` + regexp.QuoteMeta(delims[3]))
 }
 
 func formTokenMatcher(delims []string) *regexp.Regexp {
